@@ -254,7 +254,13 @@ func (e *Engine) havocLoop(st *State, fr *frame, li *loopInfo) {
 			}
 		}
 	}
-	invariantVal := func(v ssa.Value) (Value, bool) {
+	writtenKeys := map[string]bool{}
+	staticPass := true
+	var invariantVal func(v ssa.Value) (Value, bool)
+	invariantVal = func(v ssa.Value) (Value, bool) {
+		if staticPass {
+			return nil, false
+		}
 		// value defined outside the loop
 		if ins, ok := v.(ssa.Instruction); ok {
 			if !li.body[ins.Block()] {
@@ -268,6 +274,25 @@ func (e *Engine) havocLoop(st *State, fr *frame, li *loopInfo) {
 							return st.cells[p.Cell], true
 						} else {
 							return e.load(st, p, p.Elem), true
+						}
+					}
+				}
+				if fa, ok := u.X.(*ssa.FieldAddr); ok {
+					// load of a field of a loop-invariant object, the field not being written in the loop
+					if bv, ok := invariantVal(fa.X); ok {
+						if bp, ok := bv.(PtrV); ok && bp.Cell == 0 {
+							ft := fa.Type().(*types.Pointer).Elem()
+							fp := bp.field(fa.Field, ft)
+							suffix, ix := e.pathSuffix(fp)
+							stable := len(ix) == 0
+							for _, ks := range e.leafKeys(fp.rootName(e)+suffix, ft, 0) {
+								if writtenKeys[ks.Key] {
+									stable = false
+								}
+							}
+							if stable {
+								return e.load(st, fp, ft), true
+							}
 						}
 					}
 				}
@@ -376,33 +401,46 @@ func (e *Engine) havocLoop(st *State, fr *frame, li *loopInfo) {
 		}
 		whole = append(whole, kss...)
 	}
-	var callEffects []func()
-	for b := range li.body {
-		for _, ins := range b.Instrs {
-			switch x := ins.(type) {
-			case *ssa.Store:
-				addLoc(x.Addr, x.Val.Type())
-			case *ssa.MapUpdate:
-				mt := x.Map.Type().Underlying().(*types.Map)
-				kss := append([]KeySort{e.mapDomKS(mt), e.mapLenKS(mt)}, e.mapValKS(mt)...)
-				if mv, ok := invariantVal(x.Map); ok {
-					for _, ks := range kss {
-						slots = append(slots, slot{ks, mv.(Term)})
+	scanLoop := func() {
+		for b := range li.body {
+			for _, ins := range b.Instrs {
+				switch x := ins.(type) {
+				case *ssa.Store:
+					addLoc(x.Addr, x.Val.Type())
+				case *ssa.MapUpdate:
+					mt := x.Map.Type().Underlying().(*types.Map)
+					kss := append([]KeySort{e.mapDomKS(mt), e.mapLenKS(mt)}, e.mapValKS(mt)...)
+					if mv, ok := invariantVal(x.Map); ok {
+						for _, ks := range kss {
+							slots = append(slots, slot{ks, mv.(Term)})
+						}
+					} else {
+						whole = append(whole, kss...)
 					}
-				} else {
-					whole = append(whole, kss...)
+				case ssa.CallInstruction:
+					cc := x.Common()
+					e.loopCallEffects(st, fr, li, cc, invariantVal, &whole, &allocKeys, func(ks KeySort, ref Term) { slots = append(slots, slot{ks, ref}) }, 0)
+				case *ssa.Alloc, *ssa.MakeSlice, *ssa.MakeMap, *ssa.MakeInterface:
+					allocKeys = append(allocKeys, e.allocEffects(ins)...)
+				case *ssa.Send, *ssa.Select, *ssa.Go:
+					st.havocTrace()
 				}
-			case ssa.CallInstruction:
-				cc := x.Common()
-				e.loopCallEffects(st, fr, li, cc, invariantVal, &whole, &allocKeys, func(ks KeySort, ref Term) { slots = append(slots, slot{ks, ref}) }, 0)
-			case *ssa.Alloc, *ssa.MakeSlice, *ssa.MakeMap, *ssa.MakeInterface:
-				allocKeys = append(allocKeys, e.allocEffects(ins)...)
-			case *ssa.Send, *ssa.Select, *ssa.Go:
-				st.havocTrace()
 			}
 		}
 	}
-	_ = callEffects
+	scanLoop()
+	for _, ks := range whole {
+		writtenKeys[ks.Key] = true
+	}
+	for _, ks := range allocKeys {
+		writtenKeys[ks.Key] = true
+	}
+	for _, sl := range slots {
+		writtenKeys[sl.ks.Key] = true
+	}
+	whole, allocKeys, slots = nil, nil, nil
+	staticPass = false
+	scanLoop()
 	// Apply the heap effects. Arrays written through unknown roots are
 	// forgotten entirely. Arrays touched only by allocation (zero-init of
 	// fresh objects) and by stores to loop-invariant roots keep the slots of
@@ -512,38 +550,72 @@ type chainStep struct {
 	index bool
 }
 
-// selfAppendCell recognises x = append(x, ...) where x is a local cell that is
-// assigned in the loop only from such appends.
-func selfAppendCell(li *loopInfo, cc *ssa.CallCommon) *ssa.Alloc {
+// cellPath decomposes an address into a non-escaping local alloc and a field path.
+func cellPath(addr ssa.Value) (*ssa.Alloc, string, bool) {
+	path := ""
+	for {
+		switch x := addr.(type) {
+		case *ssa.Alloc:
+			if x.Heap || isArrayAlloc(x) {
+				return nil, "", false
+			}
+			return x, path, true
+		case *ssa.FieldAddr:
+			path = fmt.Sprintf(".%d", x.Field) + path
+			addr = x.X
+		default:
+			return nil, "", false
+		}
+	}
+}
+
+// selfAppendCell recognises x = append(x, ...) where x is a local variable (or
+// a field of a local struct variable) that is assigned in the loop only from
+// such appends. Returns the alloc and the field path.
+func selfAppendCell(li *loopInfo, cc *ssa.CallCommon) (*ssa.Alloc, string) {
 	ld, ok := cc.Args[0].(*ssa.UnOp)
 	if !ok || ld.Op != token.MUL {
-		return nil
+		return nil, ""
 	}
-	a, ok := ld.X.(*ssa.Alloc)
-	if !ok || a.Heap || isArrayAlloc(a) {
-		return nil
+	a, path, ok := cellPath(ld.X)
+	if !ok {
+		return nil, ""
 	}
 	for b := range li.body {
 		for _, ins := range b.Instrs {
 			s, ok := ins.(*ssa.Store)
-			if !ok || s.Addr != ssa.Value(a) {
+			if !ok {
+				continue
+			}
+			a2, p2, ok := cellPath(s.Addr)
+			if !ok || a2 != a {
+				continue
+			}
+			if p2 != path {
+				if strings.HasPrefix(p2, path) || strings.HasPrefix(path, p2) {
+					return nil, "" // overlapping store (whole struct / sub-field)
+				}
 				continue
 			}
 			call, ok := s.Val.(*ssa.Call)
 			if !ok {
-				return nil
+				return nil, ""
 			}
 			bi, ok := call.Call.Value.(*ssa.Builtin)
 			if !ok || bi.Name() != "append" {
-				return nil
+				return nil, ""
 			}
 			l2, ok := call.Call.Args[0].(*ssa.UnOp)
-			if !ok || l2.X != ssa.Value(a) {
-				return nil
+			if !ok {
+				return nil, ""
+			}
+			a3, p3, ok := cellPath(l2.X)
+			if !ok || a3 != a || p3 != path {
+				return nil, ""
 			}
 		}
 	}
-	return a
+	return a, path
 }
 
 func isArrayAlloc(a *ssa.Alloc) bool {
@@ -621,10 +693,23 @@ func (e *Engine) loopCallEffects(st *State, fr *frame, li *loopInfo, cc *ssa.Cal
 			// self-append to a local slice variable: x = append(x, ...). The
 			// arrays written are the variable's backing array at loop entry or
 			// arrays allocated inside the loop.
-			if a := selfAppendCell(li, cc); a != nil {
+			if a, fpath := selfAppendCell(li, cc); a != nil {
 				if pv, ok := st.env[a]; ok {
 					if p := pv.(PtrV); p.Cell > 0 {
-						if sv, ok := st.cells[p.Cell].(SliceV); ok {
+						var cur Value = st.cells[p.Cell]
+						for _, f := range strings.Split(strings.TrimPrefix(fpath, "."), ".") {
+							if f == "" {
+								continue
+							}
+							var fi int
+							fmt.Sscanf(f, "%d", &fi)
+							if sv, ok := cur.(StructV); ok && fi < len(sv.F) {
+								cur = sv.F[fi]
+							} else {
+								cur = nil
+							}
+						}
+						if sv, ok := cur.(SliceV); ok {
 							for _, ks := range kss {
 								slot(ks, sv.Arr)
 							}
@@ -1072,6 +1157,10 @@ func (e *Engine) verifyCase(fn *ssa.Function, c *Contract, cs *Case, res *FuncRe
 			look := e.localLookup(r, fn)
 			for _, w := range c.Witness {
 				v, ok := look(w.Local)
+				if strings.HasPrefix(w.Local, "callee ") {
+					// re-export of the witness of a callee's contract (last call)
+					v, ok = r.ghost["wit:"+strings.TrimSpace(strings.TrimPrefix(w.Local, "callee "))]
+				}
 				if !ok {
 					// the local is not live on this path: an arbitrary value
 					v = wrapTyped(e.freshValue(r, "wit_"+w.Name, e.resolveType(pkgOf(fn), w.Type)), e.resolveType(pkgOf(fn), w.Type))
